@@ -91,7 +91,24 @@ MORE = {
     "C17": " Some levels fill the partition's dictionary step by step while consulting the partition's own key listing.",
     "C19": " The read-only flag also arrives through a repository configuration file with a template parameter that is loaded twice in the process with different values, and through to_dict round trips.",
 }
+MORE2 = {
+    "C01": " Names that begin other names (f1 / f10), set constants of tuples; 'mishap' steps: operations that fail halfway (a not-to-be-memoized failure, an unencodable result, an unhashable argument, a declared dependency momentarily unbound) after which every later step is judged as before.",
+    "C14": " The C01 mishap steps apply here too; hand-written histories cover 'a legal nested call reaches the callee first'.",
+    "C13": " Events also include re-binding a tracked variable to an unencodable value and definitions that fail (a declared dependency unbound), followed by an ordinary version-changing event.",
+    "C05": " After a forget that failed with an injected I/O error the backend with the memory cache must answer like a cache-less backend over the same directories; override keys may contain '#'.",
+    "C06": " Scripted histories check recency across forget_function; allocation failures (MemoryError in the defensive DataFrame copy) are injected into cache insertions.",
+    "C07": " Partitions whose last value cannot be encoded are written (the failing write must not affect anything stored before); override keys may contain '#'.",
+    "C08": " Further fault kinds: data lost when the file is closed (error-at-close, crash-at-close), links torn between the bytes of a non-ASCII character (store under a directory with a non-ASCII name), and a fault that lasts several calls (every mutation refused while the first N calls run), after which the same process must memoize again.",
+    "C09": " A function that raises a not-to-be-memoized exception runs once per call and every caller gets the exception (a lock left behind shows as deadlock); every recorded cache entry size is compared with the library's own estimate.",
+    "C10": " Trees contain not-to-be-memoized failures (never stored, executed again whenever reached); after every run an unrelated probe call must be unaffected by whatever the run left behind.",
+    "C12": " The callee may be handed over as an argument value; in-process evolutions include a variable read through its module and a look-up while it is unbound.",
+    "C15": " After the evaluation an unrelated probe batch must be unaffected in both worlds.",
+    "C16": " Trees contain functions without parameters.",
+    "C19": " Read errors are injected into calls through the read-only store (such a call computes again, every later call is served); one read-only configuration dictionary is also used twice.",
+}
 for _k, _v in MORE.items():
+    CHECKS[_k]["text"] += _v
+for _k, _v in MORE2.items():
     CHECKS[_k]["text"] += _v
 
 
